@@ -65,7 +65,7 @@ class Env:
         self.main.current_tt = self.th
         phys = self.phys
         self.main.elapsed_time = lambda: phys
-        self.sh = symx.shims(sbi, clk)
+        self.sh = symx.shims()
         self.sh.__enter__()
         return self
 
